@@ -69,7 +69,8 @@ CHILD_TIMEOUT = 120
 ID_TABLES = {
     "Tokens": ("public_key, previous_token_hash, signature, content_hash, content", (0, 1, 3)),
     "Metadata": ("public_key, token_pointer, signature, serialized_json_dict", (0, 1)),
-    "Attestations": ("public_key, authority_key, metadata_pointer, signature", (0, 2)),
+    # one attestation per (subject, authority, metadata): several authorities may attest the same metadata
+    "Attestations": ("public_key, authority_key, metadata_pointer, signature", (0, 1, 2)),
 }
 WALLET_TABLE = "attestations"
 
@@ -189,7 +190,7 @@ def materialise(case: dict) -> tuple[list[dict], list[Record | None], list[int]]
             att = Attestation(md.get_hash(), private_key=keypool.key(AUTH_BASE + authority))
             ops.append({"op": "att", "pk": pk.hex(), "auth": auth.hex(), "mp": att.metadata_pointer.hex(),
                         "sig": att.signature.hex()})
-            records.append(Record("Attestations", (pk, auth, att.metadata_pointer, att.signature), (0, 2), att, pseud))
+            records.append(Record("Attestations", (pk, auth, att.metadata_pointer, att.signature), (0, 1, 2), att, pseud))
             pseuds.add(pseud)
         elif kind == "blob":
             _, b = op
